@@ -202,8 +202,47 @@ def _solve(job):
             out['backend'] = 'z3'
         else:
             out['reason'] += ' | z3(full): ' + r2.get('reason', '')
+    if out['result'] == 'unsat' and os.environ.get('PYVC_CROSSCHECK'):
+        _crosscheck(smt2, out)
     out['time'] = time.time() - t0
     return out
+
+
+OLD_Z3 = '/usr/bin/z3'
+
+
+def _crosscheck(smt2, out, budget_s=3):
+    """an `unsat` is re-submitted to the solvers that did not produce it (z3 4.8.12 binary, cvc5); `sat` from any
+    of them withdraws the verdict (undecided, reported as a solver disagreement)"""
+    agreed, contra = [], []
+    fn = None
+    try:
+        with tempfile.NamedTemporaryFile('w', suffix='.smt2', delete=False) as f:
+            f.write(smt2)
+            fn = f.name
+        if os.path.exists(OLD_Z3):
+            try:
+                p = subprocess.run([OLD_Z3, '-T:%d' % budget_s, fn], capture_output=True, text=True, timeout=budget_s + 5)
+                a = p.stdout.strip().splitlines()[0] if p.stdout.strip() else ''
+                (agreed if a == 'unsat' else contra if a == 'sat' else []).append('z3-4.8.12')
+            except Exception:
+                pass
+        if out.get('backend') != 'cvc5' and os.path.exists(CVC5):
+            r = {'result': 'unknown', 'reason': '', 'backend': ''}
+            _cvc5(smt2, budget_s, r)
+            (agreed if r['result'] == 'unsat' else contra if r['result'] == 'sat' else []).append('cvc5')
+        elif out.get('backend') == 'cvc5':
+            r = {'result': 'unknown', 'reason': ''}
+            _z3(smt2, budget_s, r)
+            (agreed if r['result'] == 'unsat' else contra if r['result'] == 'sat' else []).append('z3-5.1')
+    finally:
+        if fn:
+            os.unlink(fn)
+    out['confirmed_by'] = agreed
+    if contra:
+        out['result'] = 'unknown'
+        out['reason'] = 'SOLVER DISAGREEMENT: %s said unsat, %s said sat' % (out.get('backend'), ', '.join(contra))
+        out['disagreement'] = contra
 
 
 def discharge(jobs, timeout_s=10, procs=None, use_cvc5=True):
